@@ -47,7 +47,7 @@ func TestC06(t *testing.T) {
 		"Allowed set from the statement; every other row must not be forwarded and, if answered, with an SCMP parameter problem (InvalidPath, InvalidSegmentChange or UnknownHopFieldIngress/Egress). Non-trivial: a rejected row.")
 	defer rec.Flush(t)
 	rec.Assume("for packets handed over by a sibling the pair was checked by the ingress router: only 'must leave through an external interface of this router' is asserted")
-	rec.Require("within_allowed", "within_rejected", "xover_allowed", "xover_rejected", "peerhop_allowed", "peerhop_rejected", "inside_to_sibling_rejected", "inside_to_external_allowed", "unknown_egress_rejected", "egress_sibling_allowed", "inside_xover_rejected")
+	rec.Require("within_allowed", "within_rejected", "xover_allowed", "xover_rejected", "peerhop_allowed", "peerhop_rejected", "inside_to_sibling_rejected", "inside_to_external_allowed", "unknown_egress_rejected", "egress_sibling_allowed", "inside_xover_rejected", "primed_with_segment_change")
 	okCodes := map[slayers.SCMPCode]bool{slayers.SCMPCodeInvalidPath: true, slayers.SCMPCodeInvalidSegmentChange: true, slayers.SCMPCodeUnknownHopFieldIngress: true, slayers.SCMPCodeUnknownHopFieldEgress: true}
 	rapid.Check(t, func(rt *rapid.T) {
 		var fail string
@@ -66,6 +66,20 @@ func TestC06(t *testing.T) {
 			k := genForge(rt, l, time.Now())
 			if k.outIf == 0 {
 				return // local delivery: no interface pair
+			}
+			// a router's packet processor lives long: half of the cases first send an allowed segment
+			// change (child to child) through the processor that then judges the rows
+			if rapid.Bool().Draw(rt, "primeWithSegmentChange") {
+				pr, err := xoverPacket(l.key, 31, 32, time.Now())
+				if err != nil {
+					fail = "harness: " + err.Error()
+					return
+				}
+				if r0 := l.injectOn(l.dp.Interface(31), nil, pr); r0.res.Disposition != router.VerifDispForward || r0.res.Egress != 32 {
+					fail = fmt.Sprintf("priming packet (segment change child 31 -> child 32) not forwarded: disposition %d egress %d code %d", r0.res.Disposition, r0.res.Egress, r0.res.SPCode)
+					return
+				}
+				rows = append(rows, row{"primed", false, []string{"primed_with_segment_change"}})
 			}
 			beta, beta2 := rapid.Uint16().Draw(rt, "b1"), rapid.Uint16().Draw(rt, "b2")
 			h := k.h
